@@ -66,7 +66,20 @@ Inductive skind := SInt | SInt64 | SFloat | SFloat64 | SString | SBoolean | SID 
    0000-01-01T00:00:00Z = -62167219200 s, 9999-12-31T23:59:59Z = 253402300799 s *)
 Definition flt_secs_ok (f : flt) : bool :=
   f_finite f && (-9223372036854775808 <? f_trunc f) && (f_trunc f <? 9223372036854775808).
+(* a time.Time handed over by the application (TIn id): whether its year, in UTC, lies in 0..9999 is a
+   fact about the Go value; the harness numbers the values of its zoo so that exactly the ids below 100
+   are in that range *)
+Definition tin_rfc (id : Z) : bool := id <? 100.
+
 Definition rfc_secs (z : Z) : bool := (-62167219200 <=? z) && (z <=? 253402300799).
+
+Arguments rfc_secs : simpl never.
+Arguments tin_rfc : simpl never.
+
+(* the instant can be written as an RFC 3339 text (years 0..9999 in UTC), as far as the value says *)
+Definition tval_rfc (t : tval) : bool :=
+  match t with TIn id => tin_rfc id | TOfSecs z => rfc_secs z | _ => true end.
+Arguments tval_rfc : simpl never.
 Definition rfc_flt (f : flt) : bool :=
   ((-62167219200 <? f_trunc f) || ((f_trunc f =? -62167219200) && f_integral f)) && (f_trunc f <=? 253402300799).
 
@@ -139,7 +152,7 @@ Definition scalar_out (k : skind) (v : cv) : cv * bool :=
   | SBoolean, CStr s => match s_bool s with Some b => (CBool b, false) | None => (CNil, true) end
   | SID, CStr s => (CStr s, false)
   | SID, CI _ z => (CStrOfInt z, false)
-  | STime, CTime t => (CTimeText t, false)
+  | STime, CTime t => if tval_rfc t then (CTimeText t, false) else (CNil, true)
   | STime, CI KInt64 z => if rfc_secs z then (CTimeText (TOfSecs z), false) else (CNil, true)
   | STime, CFl (FIn f) =>
       if f_w32 f || negb (flt_secs_ok f) || negb (rfc_flt f) then (CNil, true) else (CTimeText (TOfFlt (f_id f)), false)
@@ -363,7 +376,7 @@ Definition has_shape (t : cty) (r : cv) : bool :=
   | TScalar SCustom, CStr _ | TScalar SCustom, CStrOfInt _ | TScalar SCustom, CStrOfBool _ | TScalar SCustom, CStrOfFlt _ => true
   | TScalar SID, CStr _ | TScalar SID, CStrOfInt _ => true
   | TScalar SBoolean, CBool _ => true
-  | TScalar STime, CTimeText _ => true
+  | TScalar STime, CTimeText t => tval_rfc t
   | TEnum vals, CSymName e => existsb (Nat.eqb e) vals
   | _, _ => false
   end.
